@@ -121,6 +121,9 @@ def observe(g, view_names, maxpos):
                     res = tuple(sorted((k, repr(v)) for k, v in res.items()))
                 except TypeError:
                     res = 'TypeError'
+                except Exception as e:
+                    # nothing the decorated function does raises anything else: the wrapper objects did
+                    res = 'raised %s' % type(e).__name__
                 calls.append(res)
     out['calls'] = tuple(calls)
     return out
